@@ -458,6 +458,7 @@ def real_lsp(ctx, messages, timeout=60):
     sentinel = {"jsonrpc": "2.0", "id": "__sentinel__", "method": "verif/sentinel"}
     p = subprocess.Popen([ctx.binary, "lsp"], stdin=subprocess.PIPE, stdout=subprocess.PIPE, stderr=subprocess.DEVNULL, cwd=ctx.scratch)
     out, alive, rc = [], False, None
+    framing = None
     try:
         data = b"".join(frame(m) for m in messages) + (b"" if ends_with_exit else frame(sentinel))
 
@@ -486,7 +487,13 @@ def real_lsp(ctx, messages, timeout=60):
                 n = int(m.group(1))
                 if len(buf) < i + 4 + n:
                     break
-                obj = json.loads(buf[i + 4:i + 4 + n].decode("utf-8"))
+                try:
+                    obj = json.loads(buf[i + 4:i + 4 + n].decode("utf-8"))
+                except (ValueError, UnicodeDecodeError) as e:
+                    # the announced length does not delimit a JSON message: a client cannot read this server's output
+                    framing = f"Content-Length {n} does not delimit a JSON value: {e}; body starts {buf[i + 4:i + 4 + min(n, 60)]!r}"
+                    done = True
+                    break
                 buf = buf[i + 4 + n:]
                 if isinstance(obj, dict) and obj.get("id") == "__sentinel__":
                     alive = True
@@ -518,7 +525,26 @@ def real_lsp(ctx, messages, timeout=60):
         if p.poll() is None:
             p.kill()
             p.wait()
-    return {"out": out, "alive": alive, "rc": rc}
+    return {"out": out, "alive": alive, "rc": rc, "framing": framing}
+
+
+def framing_probe(ctx):
+    """The real process over stdio with non-ASCII text in both directions: every response must arrive in a frame whose
+    Content-Length is the byte length of its body (the in-process adapter never frames, so this is checked on the real server only)."""
+    text = 'let s = "héllo wörld ✓ 😀"\nlet  t=1 // é\n'
+    uri = "file:///verif_scratch/framing.gdn"
+    msgs = [{"jsonrpc": "2.0", "id": 1, "method": "initialize", "params": {"capabilities": {}}},
+            {"jsonrpc": "2.0", "method": "textDocument/didOpen", "params": {"textDocument": {"uri": uri, "languageId": "garden", "version": 1, "text": text}}},
+            {"jsonrpc": "2.0", "id": 2, "method": "textDocument/formatting", "params": {"textDocument": {"uri": uri}, "options": {"tabSize": 2, "insertSpaces": True}}},
+            {"jsonrpc": "2.0", "id": 3, "method": "textDocument/hover", "params": {"textDocument": {"uri": uri}, "position": {"line": 0, "character": 4}}},
+            {"jsonrpc": "2.0", "id": 4, "method": "textDocument/documentSymbol", "params": {"textDocument": {"uri": uri}}}]
+    real = real_lsp(ctx, msgs)
+    ids = [o.get("id") for o in real["out"] if isinstance(o, dict) and "method" not in o]
+    if real["framing"] or not real["alive"] or ids != [1, 2, 3, 4]:
+        ctx.violation("real `garden lsp` process, non-ASCII document: responses are badly framed or missing",
+                      {"messages": msgs, "framing_error": real["framing"], "alive": real["alive"], "response_ids": ids, "exit": real["rc"]},
+                      cli_cmd="garden lsp  (Content-Length framed messages on stdin)")
+    ctx.outcome("framing probe on the real process: " + ("ok" if not ctx.violations.get("real `garden lsp` process, non-ASCII document: responses are badly framed or missing") else "bad"))
 
 
 def parse_reftest_output(out):
@@ -912,6 +938,7 @@ def real_samples(ctx, rep, states, ondisk_uri, ondisk_text, front, panicking=())
     adapter; check liveness (sentinel answered) and the exit status after exit."""
     picks = [states[0], states[len(states) // 3], states[2 * len(states) // 3], states[-1]]
     n = 0
+    framing_probe(ctx)
     for st in picks:
         sdocs = dict(st[0])
         evs = request_events(sdocs, ondisk_uri, ondisk_text)
@@ -923,6 +950,9 @@ def real_samples(ctx, rep, states, ondisk_uri, ondisk_text, front, panicking=())
             continue
         real = real_lsp(ctx, msgs)
         n += 1
+        if real["framing"]:
+            ctx.violation("real `garden lsp` process: a response is badly framed (Content-Length does not match the body)", {"history": msgs[:6], "framing_error": real["framing"]})
+            continue
         if not real["alive"]:
             raise Machinery(f"adapter drift: real server died (rc={real['rc']}) on a history the in-process adapter survives")
         flat = [o for x in inproc["results"] for o in x["out"]]
